@@ -941,6 +941,9 @@ func (g *Gen) enterLoop(h *ssa.BasicBlock, li *loopInfo, st State, fwd []predEdg
 		for _, c := range g.ct.LoopInv[li.ord] {
 			env := g.envAt(st, g.entryState(), g.pkg, vars)
 			t := env.compileBool(c.Expr)
+			if g.invariantStale(env, c) {
+				continue
+			}
 			g.reportSpecErrors(env, c)
 			g.assume(app("=>", reach, t.S))
 		}
@@ -982,6 +985,9 @@ func (g *Gen) checkInvariantAt(h *ssa.BasicBlock, li *loopInfo, st State, cond s
 		env := g.envAt(st, g.entryState(), g.pkg, vars)
 		env.inGoal = true
 		t := env.compileBool(c.Expr)
+		if g.invariantStale(env, c) {
+			continue
+		}
 		g.reportSpecErrors(env, c)
 		label := c.Label
 		if label == "" {
@@ -1061,4 +1067,24 @@ func (g *Gen) needErrIs() {
 	oh := g.stGet(st, g.fieldHeapName(ut.(*types.Pointer).Elem(), "originErr"), &Sort{K: KRaw, Name: "(Array Int Iface)"})
 	g.assume(fmt.Sprintf("(forall ((e!q Iface) (t!q Iface)) (! (=> (and (not (= e!q inil)) (= (itag e!q) %d)) (= (err_is e!q t!q) (or (= e!q t!q) (= t!q %s) (err_is (select %s (iptr e!q)) t!q)))) :pattern ((err_is e!q t!q))))", g.te.tagOf(ut), unc, oh))
 	g.assumed["errors.Is axioms for nil, plain sentinels, *storage.Conflict, *storage.errUncertainResult (the two Is methods are verified under C09)"] = true
+}
+
+// invariantStale: a loop invariant that mentions a local variable the loop no longer has (the
+// loop was rewritten) cannot be used; it is dropped with a note, so the obligations that
+// depended on it fail as undischarged instead of the whole check giving up.
+func (g *Gen) invariantStale(env *Env, c Clause) bool {
+	if len(env.errs) == 0 {
+		return false
+	}
+	for _, e := range env.errs {
+		if !strings.Contains(e, "unknown identifier") {
+			return false
+		}
+	}
+	g.note("loop invariant %q does not apply to the current loop (%s): dropped", c.Text, env.errs[0])
+	if !g.dry {
+		g.staleInv = append(g.staleInv, c.Text)
+	}
+	env.errs = nil
+	return true
 }
